@@ -63,7 +63,7 @@ def check_case(case, rec):
             key = "dup-group-text-sort"
         elif set(a) ^ set(b) == {"DEF_EXPAND_INVALID"}:
             key = "def-expand-order-sensitive"
-        rec.violation(f"error codes change under rewrite ({case['how']}): {a} vs {b}", case, key=key)
+        rec.violation("error codes change under a meaning-preserving rewrite", dict(case, codes_original=a, codes_rewrite=b), key=key)
 
 
 def run_shard(shard, rec):
